@@ -231,6 +231,24 @@ impl Family for SyncFam {
             _ => false,
         }
     }
+    /// a plain `wait` returns only after a notification issued while it was waiting: its clock must
+    /// dominate the clock of at least one notify (one or all) on that condvar returned between the
+    /// wait's call and its return
+    fn hb_must_any(p: &Program<SyncFam>, log: &[Entry<SRes>]) -> Vec<(Vec<usize>, usize)> {
+        let mut out = Vec::new();
+        for (j, w) in log.iter().enumerate() {
+            if !matches!(w.kind, EKind::Ret(_)) {
+                continue;
+            }
+            let GOp::Op(SOp::Wait(c, _)) = &p.threads[w.thread][w.op] else { continue };
+            let Some(call) = call_of(log, w.thread, w.op) else { continue };
+            let srcs: Vec<usize> = (call..j)
+                .filter(|&i| matches!(log[i].kind, EKind::Ret(_)) && matches!(&p.threads[log[i].thread][log[i].op], GOp::Op(SOp::NotifyOne(c2)) | GOp::Op(SOp::NotifyAll(c2)) if c2 == c))
+                .collect();
+            out.push((srcs, j));
+        }
+        out
+    }
     fn m_fuse_applies(m: &SM, _t: usize, op: &SOp) -> bool {
         match op {
             // the scheduling point is omitted only when the wait will block
@@ -285,22 +303,6 @@ impl Family for SyncFam {
                         }
                     }
                 },
-                SOp::NotifyAll(c) => {
-                    // waits on c whose Call precedes this Ret and whose Ret follows it
-                    for (j, w) in log.iter().enumerate().skip(i + 1) {
-                        if !matches!(w.kind, EKind::Ret(_)) {
-                            continue;
-                        }
-                        if let GOp::Op(SOp::Wait(c2, _)) = &p.threads[w.thread][w.op] {
-                            if c2 == c {
-                                let called_before = log[..i].iter().any(|x| x.thread == w.thread && x.op == w.op && x.kind == EKind::Call);
-                                if called_before {
-                                    out.push((i, j));
-                                }
-                            }
-                        }
-                    }
-                }
                 _ => {}
             }
         }
